@@ -542,6 +542,71 @@ def Config.outs (cfg : Config) (a : Actor) : List Outcome :=
   | some st => st.outs
   | none => []
 
+/-! ## The specification: a map from ref names to values, one operation at a time
+
+`specVal` is the map specification restricted to the one ref an operation acts on; a sequential history is a list
+of events (actor, operation, returned result) and `specRun` replays it on a map: every event must return what
+`specVal` says and changes its ref as `specVal` says; an operation that raised (a loser) changes nothing. -/
+
+def Op.target : Op → Ref
+  | .read r => r
+  | .get r => r
+  | .cas n _ _ => n
+  | .add n _ => n
+  | .rm n _ => n
+  | .symref n _ => n
+  | .commit r _ => r
+  | .commit1 r _ => r
+  | _ => 0
+
+/-- a loose value that is not a symbolic ref -/
+def IsSha : Option Val → Prop
+  | some (.sym _) => False
+  | _ => True
+
+/-- the operations of the loose fragment: direct reads, conditional/unconditional set, create, delete, all
+writing object ids -/
+def LooseOp : Op → Prop
+  | .read _ => True
+  | .cas _ _ (.sha _) => True
+  | .add _ (.sha _) => True
+  | .rm _ _ => True
+  | _ => False
+
+/-- The map specification restricted to the one ref an operation acts on: (new value, result). -/
+def specVal : Op → Option Val → Option Val × Outcome
+  | .read _, x => (x, .val x)
+  | .cas _ none new, _ => (some new, .bool true)
+  | .cas _ (some o) new, x => if x = o then (some new, .bool true) else (x, .bool false)
+  | .add _ v, x => if x.isSome then (x, .bool false) else (some v, .bool true)
+  | .rm _ none, _ => (none, .bool true)
+  | .rm _ (some o), x => if x = o then (none, .bool true) else (x, .bool false)
+  | _, x => (x, .unit)
+
+structure LinEv where
+  actor : Actor
+  op : Op
+  out : Outcome
+
+def Outcome.isExc : Outcome → Bool
+  | .exc _ => true
+  | _ => false
+
+/-- One event of the sequential history: a loser (exception) has no effect; otherwise the operation must return
+what the specification says and the ref takes the specified value. -/
+def specStep (m : Ref → Option Val) (e : LinEv) : Option (Ref → Option Val) :=
+  if e.out.isExc then some m
+  else if (specVal e.op (m e.op.target)).2 = e.out then
+    some (upd m e.op.target (specVal e.op (m e.op.target)).1)
+  else none
+
+def specRun (m : Ref → Option Val) : List LinEv → Option (Ref → Option Val)
+  | [] => some m
+  | e :: es =>
+    match specStep m e with
+    | some m' => specRun m' es
+    | none => none
+
 /-! ## The commit protocol over an atomic compare-and-swap register
 
 One branch as a register holding an optional commit id.  Every access is one atomic step: this is what
